@@ -56,6 +56,37 @@ class P:
                 pats.append(b"".join(rnd.choice(PSYM[:5] + [b"c"]) for _ in range(rnd.randint(1, 4))))
             rc.append(mk(pats, mode, s))
 
+        # structured bracket expressions: members are literals, escaped literals, ranges (also with escaped ends), named classes
+        bc = []
+        LITS = [b"a", b"c", b"e", b"-", b"]", b"[", b"!", b"^", b".", b"0", b"9", b"Z", b"\n", "é".encode()]
+        nbr = 12000 if tier == "quick" else 150000
+        for _ in range(nbr):
+            mem = []
+            for _ in range(rnd.randint(1, 4)):
+                k = rnd.random()
+                a, b = rnd.choice(LITS), rnd.choice(LITS)
+                esc = lambda x: (b"\\" + x) if rnd.random() < 0.5 else x
+                if k < 0.45:
+                    mem.append(esc(a))
+                elif k < 0.8:
+                    mem.append(esc(a) + b"-" + esc(b))
+                elif k < 0.9:
+                    mem.append(rnd.choice([b"[:alpha:]", b"[:digit:]", b"[:punct:]", b"[:space:]"]))
+                else:
+                    mem.append(esc(a) + b"\\-" + esc(b))
+            neg = rnd.choice([b"", b"", b"!", b"^"])
+            pre = rnd.choice([b"", b"", b"*", b"?", b"a", b"\\["])
+            post = rnd.choice([b"", b"", b"*", b"?", b"c", b"]"])
+            p = pre + b"[" + neg + b"".join(mem) + b"]" + post
+            lits = sorted(set(c for c in p if c not in b"*?[]\\!^:"))
+            chars = set(lits) | {0x2d, 0x62, 0x5d}
+            for x, y in zip(lits, lits[1:]):
+                chars.add((x + y) // 2)
+            chars = sorted(chars)
+            for _ in range(3):
+                s_ = bytes(rnd.choice(chars) for _ in range(rnd.randint(0, 3)))
+                bc.append(mk([p], rnd.choice(MODES), s_))
+
         def cmp(c, i, m):
             return "unmodelled" in m or i == m
 
@@ -65,13 +96,37 @@ class P:
         return [{"name": "exhaustive", "harness": "c12", "driver": "c12", "cases": cases, "compare": cmp, "nontrivial": nontrivial,
                  "distribution": {"patterns_le": P_, "subjects_le": S_, "modes": 4, "cases": nex}},
                 {"name": "random", "harness": "c12", "driver": "c12", "cases": rc, "compare": cmp, "nontrivial": nontrivial,
-                 "distribution": {"cases": nrand}}]
+                 "distribution": {"cases": nrand}},
+                {"name": "brackets", "harness": "c12", "driver": "c12", "cases": bc, "compare": cmp, "nontrivial": nontrivial,
+                 "distribution": {"cases": len(bc), "shape": "prefix [ neg? members{1..4} ] suffix; members: literal/escaped/range/escaped-dash/named class"}}]
 
     def describe(self, part, case):
         f = case.split("\t")
         return "Match(%r, mode=%s, %r)" % ([unhx(x) for x in f[0].split(",")], f[1], unhx(f[2]))
 
     def classify(self, part, case, impl, model, judge, findings):
+        return None
+
+    def search(self, unknown, C):
+        """the compiled expressions differ: probe the diverging patterns with subjects built from their own characters"""
+        seen = set()
+        for u in unknown[:400]:
+            pats = u["case"].split("\t")[0]
+            if pats in seen:
+                continue
+            seen.add(pats)
+            p = unhx(pats.split(",")[0])
+            lits = sorted(set(c for c in p if c not in b"*?[]\\!^"))
+            chars = set(lits) | {0x2d, 0x61}
+            for x, y in zip(lits, lits[1:]):
+                chars.add((x + y) // 2)
+            alpha = [bytes([c]) for c in sorted(chars)][:7]
+            cases = [mk([unhx(q) for q in pats.split(",")], m, s) for s in words(alpha, 3) for m in MODES]
+            impl = C.run_harness("c12", cases)
+            mj = C.run_driver("c12", cases, impl)
+            for c, i, (m, j) in zip(cases, impl, mj):
+                if j.startswith("bad"):
+                    return {"part": "search", "case": c, "impl": i, "model": m, "judge": j, "kind": "judge(search)"}
         return None
 
     def replay(self, payload, C):
